@@ -24,9 +24,12 @@ import random
 import selectors as _sel
 import sys
 import threading as _rt
+import time as _time
 
 SHORT = 0.05
 IDLE_ITERS = 3
+STEP_CPU_LIMIT = 20.0
+RUNAWAY = False            # a thread of an earlier execution is spinning for ever: nothing measured afterwards is reliable
 STEP_WALL_LIMIT = 120.0     # wall clock, generous: a loaded machine must never turn a slow step into a reported hang
 
 
@@ -36,6 +39,10 @@ class Deadlock(Exception):
 
 class StepLimit(Exception):
     pass
+
+
+class Runaway(Exception):
+    """raised when a new execution is started although a thread of an earlier one is stuck in an endless loop"""
 
 
 class StepHang(Exception):
@@ -291,9 +298,16 @@ class Sched:
             self.trace.append((t.name, t.pending[0], getattr(t.pending[1], "vname", None), t.pending[2], fire_timeout))
         self.cur = t
         t.sem.release()
-        if not self.main_sem.acquire(timeout=STEP_WALL_LIMIT):
-            self.cur = None
-            raise StepHang(f"thread {t.name} does not reach its next synchronisation point (in {t.where[:3]})")
+        # a step that never reaches its next synchronisation point: STEP_CPU_LIMIT seconds of CPU spent by this process while waiting
+        # (every other thread is parked, so it is the stepping thread that spins) or STEP_WALL_LIMIT seconds of wall clock
+        cpu0, waited = _time.process_time(), 0.0
+        while not self.main_sem.acquire(timeout=1.0):
+            waited += 1.0
+            if _time.process_time() - cpu0 > STEP_CPU_LIMIT or waited > STEP_WALL_LIMIT:
+                self.cur = None
+                global RUNAWAY
+                RUNAWAY = True
+                raise StepHang(f"thread {t.name} does not reach its next synchronisation point (in {t.where[:3]})")
         self.cur = None
         if self.on_step:
             self.on_step(t)
@@ -792,6 +806,8 @@ def install(seed=0):
 
 def new_sched(seed=0, max_steps=200000):
     global SCHED
+    if RUNAWAY:
+        raise Runaway("a thread of an earlier execution never returned; the remaining executions are skipped")
     SCHED = Sched(seed, max_steps)
     NEXT_SOCKS.clear()
     del ALL_SOCKS[:]
